@@ -48,7 +48,10 @@ def _history(opb, ops):
         elif kind == 4:
             grp = F.new_binary_mapping(a + 1, b + 1)
         elif kind == 5:
-            F.add_clause([n0 + a + 1, -(n0 + 1)] if b else [-(n0 + a + 1)])
+            mine = [n0 + a + 1, -(n0 + 1)] if b else [-(n0 + a + 1)]
+            F.add_clause(mine)
+            mine.append(n0 + a + 40)            # the list is the caller's: reusing it afterwards does not reach into the formula
+            mine[0] = -(n0 + a + 50)
             if F.number_of_variables() != n0 + a + 1:
                 return False
         elif kind == 6:
@@ -82,13 +85,17 @@ def _history(opb, ops):
             # bulk insertion with the public default arguments: list, tuple or generator of clauses
             cls = [[n0 + a + 1, -(n0 + 1)], [n0 + 1]]
             F.add_clauses_from([cls, tuple(cls), (c for c in cls)][b])
+            cls[0].append(n0 + a + 40)
+            cls[1][0] = n0 + a + 50
             if F.number_of_variables() != n0 + a + 1:
                 return False
         elif kind == 13:
             if opb:
                 F.add_constraints_from([[(2, n0 + a + 1), (1, -(n0 + 1)), ['>=', '==', '<='][b], 1], [(1, n0 + 1), '>=', 0]])
             else:
-                F2 = CNF([[n0 + a + 1, -(n0 + 1)], [n0 + 1]][:b + 1])
+                given = [[n0 + a + 1, -(n0 + 1)], [n0 + 1]][:b + 1]
+                F2 = CNF(given)
+                given[0].append(n0 + a + 40)
                 if F2.number_of_variables() != n0 + a + 1 or not _ok(F2):
                     return False
                 F.add_clauses_from(F2.clauses())
